@@ -102,6 +102,27 @@ def zero_volume_cases():
     return out
 
 
+def repeated_name_cases():
+    """a plan that observes the same target (same name, same pipeline)
+    twice; the second is handed to the scheduler while the first is still
+    being processed"""
+    from ..scopes import mkobs, mkcfg, mkcase, dag, CLUSTERS
+    out = []
+    for M in (2, 3):
+        for wf in (dag("chain3", [3, 3, 3], [0, 0]),
+                   dag("fork", [2, 4, 1], [0, 0])):
+            for s2, d2 in ((2, 1), (3, 2), (1, 1)):
+                obs = [mkobs("a", 0, 1, 1, 1, 1, "wa"),
+                       mkobs("a", s2, d2, 1, 1, 1, "wa")]
+                cfg = mkcfg(CLUSTERS[M][0], obs, (100, 10), (100, 10), 2, 2)
+                for alg in ({"kind": "queue"},
+                            {"kind": "batch", "p": 1, "min": 1},
+                            {"kind": "batch", "p": 2, "min": 1}):
+                    out.append(("S-repeated-name", mkcase(cfg, {"wa": wf},
+                                                          alg)))
+    return out
+
+
 def run(rep, tier, seed):
     rep.rule = RULE
     truth_table(rep)
@@ -128,7 +149,7 @@ def run(rep, tier, seed):
                               {"engine": "E2", "M": M,
                                "history": [list(h) for h in hist]},
                               detail, "E2-cluster-M%d" % M)
-    cs = cases(tier, seed)
+    cs = cases(tier, seed) + repeated_name_cases()
     e1.sweep(rep, cs, monitors_for, {})
     rep.states = len(rep.states) + e2_states
     e1.conformance(rep, cs[::max(1, len(cs) // 40)])
